@@ -183,6 +183,14 @@ func (h *Hist) Del(k, v int) {
 	h.record(Hop{Op: "del", K: k, V: v}, acc(r.Status == 200))
 }
 
+// Restart closes and reopens the datastore on the same stores (what a server restart does to the persistent
+// state).  It is not an operation of the model: the model's state must be unaffected, so it is printed as a
+// request that changes nothing there (a refused commit of the non-existent version 0).
+func (h *Hist) Restart() {
+	datastore.CloseReopenTest()
+	h.record(Hop{Op: "restart"}, "ORefused")
+}
+
 func (h *Hist) Commit(v int) {
 	r := dv.Commit(h.UUIDs[v-1])
 	if r.Status == 200 {
@@ -297,6 +305,8 @@ func (h *Hist) Replay(ops []Hop) {
 			}
 		case "commit":
 			h.Commit(o.V)
+		case "restart":
+			h.Restart()
 		case "child":
 			h.Child(o.How, o.Parents)
 		case "get":
@@ -383,6 +393,9 @@ func (h *Hist) LineageMerge(nkeys, maxNodes int) {
 		return
 	}
 	m := len(h.UUIDs)
+	if rng.Chance(0.3) {
+		h.Restart() // the merge node and its parents must have reached the store
+	}
 	h.Get(k, m)
 	switch rng.Intn(3) {
 	case 0:
@@ -418,6 +431,10 @@ func (h *Hist) Random(nops, nkeys, maxNodes int) {
 		open, lk := h.OpenList(), h.LockedList()
 		if rng.Chance(0.04) && len(h.UUIDs)+4 <= maxNodes {
 			h.LineageMerge(nkeys, maxNodes)
+			continue
+		}
+		if rng.Chance(0.02) {
+			h.Restart()
 			continue
 		}
 		switch x := rng.Intn(100); {
@@ -494,6 +511,8 @@ func (h *Hist) CoqOps() string {
 			ss[i] = fmt.Sprintf("OGet %d %d", o.K, o.V)
 		case "commit":
 			ss[i] = fmt.Sprintf("OCommit %d %s", o.V, lib.CoqBool(h.Obs[i] == "OAccepted"))
+		case "restart":
+			ss[i] = "OCommit 0 false"
 		case "child":
 			ps := make([]string, len(o.Parents))
 			for j, p := range o.Parents {
